@@ -45,6 +45,7 @@ impl SharedBuf {
 }
 
 /// Harness parser: ignores its input, delivers the configuration's items.
+#[derive(Clone)]
 pub struct HParser(pub Config);
 
 impl cucumber::Parser<()> for HParser {
